@@ -1,5 +1,7 @@
 package jet
 
+import "reflect"
+
 // ---- C01: every rendered value is escaped exactly once; only SafeWriters bypass ----
 
 // c01Contexts: each entry renders the action {{ x }} in one syntactic context. The
@@ -294,6 +296,73 @@ func (c01UintStringer) String() string { return c01Text }
 //
 //gosym:reach rendered
 func H_C01_escaperFollowsSet() { H_C10_twoSets() }
+
+// H_C01_writerCommands: what a writer command leaves behind and what happens while it
+// prints its arguments: (0) a writer command whose argument fails, caught by try, followed
+// by an ordinary action; (1) the same failure ending the Execute, followed by another
+// Execute on the pooled runtime; (2) a writer command with several arguments one of which
+// renders a template that itself uses a writer command (includeIfExists / exec) - the
+// later arguments are still escaped by the outer SafeWriter and reach the output; (3) the
+// same through a function that calls Runtime.YieldBlock. The ordinary actions are escaped
+// by the Set's escaper, exactly once.
+//
+//gosym:reach rendered
+func H_C01_writerCommands() {
+	sc := ndChoice("scenario", 5)
+	esc := ndChoice("esc", 3)
+	w := []string{"raw", "unsafe", "safeHtml", "mark"}[ndChoice("writer", 4)]
+	x := ndName("x", 2)
+	set := hxSet(c01Opts(esc),
+		"/r.jet", `[{{ "<c>" | raw }}]`,
+		"/e.jet", `{{ "<d>" | raw }}{{ return "<v>" }}`,
+		"/lib.jet", `{{ block yb() }}({{ "<y>" | raw }}){{ end }}`,
+		"/fail.jet", `a{{ `+w+`: boom() }}b`,
+		"/caught.jet", `{{ try }}{{ `+w+`: boom() }}{{ catch }}c{{ end }}<{{ x }}>`,
+		"/args1.jet", `{{ safeHtml: "<a>", includeIfExists("/r.jet"), x }}`,
+		"/args2.jet", `{{ safeHtml: x, exec("/e.jet"), x }}`,
+		"/args3.jet", `{{ import "/lib.jet" }}{{ safeHtml: "<a>", yb(), x }}`,
+		"/plain.jet", `<{{ x }}>`,
+	)
+	vars := func() VarMap {
+		v := make(VarMap)
+		v.Set("x", x)
+		v.SetWriter("mark", hxMark)
+		v.SetFunc("boom", hxFail)
+		v.SetFunc("yb", func(a Arguments) reflect.Value {
+			a.Runtime().YieldBlock("yb", nil)
+			return reflect.ValueOf("")
+		})
+		return v
+	}
+	h := string(refEsc([]byte(x)))
+	if x == "" {
+		h = ""
+	}
+	var out, want string
+	var err error
+	switch sc {
+	case 0:
+		out, err = hxExec(set, "/caught.jet", vars(), nil)
+		want = "c<" + c01Want(esc, x) + ">"
+	case 1:
+		hxExec(set, "/fail.jet", vars(), nil)
+		out, err = hxExec(set, "/plain.jet", vars(), nil)
+		want = "<" + c01Want(esc, x) + ">"
+	case 2:
+		out, err = hxExec(set, "/args1.jet", vars(), nil)
+		want = "&lt;a&gt;[<c>]true" + h
+	case 3:
+		out, err = hxExec(set, "/args2.jet", vars(), nil)
+		want = h + "&lt;v&gt;" + h
+	default:
+		out, err = hxExec(set, "/args3.jet", vars(), nil)
+		want = "&lt;a&gt;(<y>)" + h
+	}
+	vfReach("rendered")
+	vfAssert(err == nil, "renders")
+	vfNote(out)
+	vfAssert(out == want, "values escaped exactly once by the escaper in charge; nothing lost")
+}
 
 // H_C01_nested (thorough): the action {{ x }} (or {{ x | raw }} / {{ x | safeHtml }}) inside
 // three nested constructs out of eight (if, else branch, range, block definition site,
